@@ -25,7 +25,10 @@ Definition check_614 (fs : list field) : verdict :=
       match load (negb (rec =? 0)) (negb (ns =? 0)) t bs with
       | Some tr =>
         if st =? 0 then (if nodes =? tree_count tr then VOk else VDrift 4) else VDrift 1
-      | None => expect 2 (negb (st =? 0)) [FZ 1]
+      (* the buffer holds one complete value (skip accepts it) but the load model refuses it: the model is stricter than
+         the code on details outside this property (ThriftDom checks the key/element type bytes of a map with
+         ThriftWire.valid_type, the code with Type.Valid, which also admits STOP/VOID/UTF8/UTF16): drift, not a failure *)
+      | None => if st =? 0 then VDrift 6 else VOk
       end
     end
   | _ => VBad 99 []
